@@ -39,3 +39,8 @@ func VerifParseIKey(ik []byte) (ukey []byte, seq uint64, kt uint, err error) {
 	u, s, k, e := parseInternalKey(ik)
 	return u, s, uint(k), e
 }
+
+// VerifProbeIKey builds the lookup key for "ukey as of seq" exactly as the read path does.
+func VerifProbeIKey(ukey []byte, seq uint64) []byte {
+	return makeInternalKey(nil, ukey, seq, keyTypeSeek)
+}
